@@ -13,10 +13,10 @@ import numpy as np
 from ..common import Slice, fr, inds_tok, run_driver
 
 MODULE = 'PyhmsVerif.Props.C15Full'
-THEOREMS = ['C15.cluster_eq_spec', 'C15.assemble_eq_spec', 'C15.better_prefix', 'C15.nbDist_spec', 'NBC.sortDesc_sorted', 'NBC.sortDesc_perm', 'C15.sortLex_perm', 'C15Perm.kept_perm_invariant', 'C15Perm.sorted_inds_eq', 'C15Perm.le_antisymm']
+THEOREMS = ['C15.cluster_eq_spec', 'C15.assemble_eq_spec', 'C15.better_prefix', 'C15.nbDist_spec', 'NBC.sortDesc_sorted', 'NBC.sortDesc_perm', 'C15.sortLex_perm', 'C15Perm.kept_perm_invariant', 'C15Perm.sorted_inds_eq', 'C15Perm.le_antisymm', 'C15Perm.spec_reindex', 'C15Perm.seeds_perm_invariant']
 EXTRA_MODULES = ['PyhmsVerif.Props.C15Perm']
 LEVEL = 'proof'
-LEVEL_TEXT = 'Theorem C15.cluster_eq_spec (all populations with pairwise distinct genomes, all distance functions, tie patterns, both directions, all distance / truncation factors and means): whatever the model of the code (NBC.cluster: genome-tie-broken stable best-first sort, truncation, slice before the first individual of equal fitness, tie-with-best rule, threshold cut) returns is exactly the declarative set of cluster seeds (NBC.spec) of the kept population for the threshold the code computed; the kept population is best-first and consists of input individuals. Supporting: better_prefix, nbDist_spec, assemble_eq_spec, sort lemmas. Tie: the real clustering is compared with the operational model AND the declarative definition on every case (size 2-60, dim 1-8, clustered/uniform/collinear/tied/converged); independent reference + metamorphic relations (permutation, binary64-exact translation, power-of-two scaling, mirror). PERMUTATION INVARIANCE (Props/C15Perm.lean): kept_perm_invariant — for any two populations that are permutations of each other (any tie pattern, direction, truncation) the kept best-first population the clustering computes on is the same list of individuals: the genome sort followed by the stable fitness sort establishes a total order (strictly better first, equal fitness by lexicographic genome) and a sorted permutation is unique; with cluster_eq_spec the seeds are then the declarative seeds of the same kept population whatever the input order (finding D16 violated exactly this).'
+LEVEL_TEXT = 'Theorem C15.cluster_eq_spec (all populations with pairwise distinct genomes, all distance functions, tie patterns, both directions, all distance / truncation factors and means): whatever the model of the code (NBC.cluster: genome-tie-broken stable best-first sort, truncation, slice before the first individual of equal fitness, tie-with-best rule, threshold cut) returns is exactly the declarative set of cluster seeds (NBC.spec) of the kept population for the threshold the code computed; the kept population is best-first and consists of input individuals. Supporting: better_prefix, nbDist_spec, assemble_eq_spec, sort lemmas. Tie: the real clustering is compared with the operational model AND the declarative definition on every case (size 2-60, dim 1-8, clustered/uniform/collinear/tied/converged); independent reference + metamorphic relations (permutation, binary64-exact translation, power-of-two scaling, mirror). PERMUTATION INVARIANCE (Props/C15Perm.lean): kept_perm_invariant — for any two populations that are permutations of each other (any tie pattern, direction, truncation) the kept best-first population the clustering computes on is the same list of individuals: the genome sort followed by the stable fitness sort establishes a total order (strictly better first, equal fitness by lexicographic genome) and a sorted permutation is unique; with cluster_eq_spec the seeds are then the declarative seeds of the same kept population whatever the input order (finding D16 violated exactly this); seeds_perm_invariant — for a distance that depends on genomes only, two populations that are permutations of each other (pairwise distinct genomes) and the same parameters: whenever the clustering is defined on both it returns the same list of seeds (spec_reindex: renaming input positions consistently with the distance function leaves the declarative seed set unchanged).'
 LEVEL_NOTE = 'Trusted: Lean kernel + standard axioms; NumPy norms / means are environment (the distance function and the mean are parameters of the theorem), checked against exact squared distances by the harness; threshold decisions closer than 1e-9 relative are skipped by the reference monitor (counted), never by the model comparison, which uses the binary64 values the code used. Invariance under permutation / translation / scaling / mirror is monitored (metamorphic), not proved.'
 TECHNIQUE = "differential correspondence with the Lean NBC model + reference definition + metamorphic relations"
 RULE = "case = (population, distance_factor, truncation_factor, direction); populations: size 2-60, dim 1-8, clustered / uniform / collinear / tied fitness / converged to 1e-12; non-trivial = more than one seed returned or ties present or truncation active; distinct by content hash"
